@@ -17,8 +17,12 @@ PROP = dict(
              workers=12, timeout=dict(quick=300, thorough=1200)),
         dict(module="DirectiveOrderTwins", cfg=dict(quick="DirectiveOrderTwinsEmit_quick.cfg", thorough="DirectiveOrderTwinsEmit_thorough.cfg"),
              emit=True, workers=8, timeout=dict(quick=300, thorough=600)),
+        # extension: rule semantics of rewrite / redir (specs/RewriteRedir.tla, notes/RewriteRedir.md): invariants + one CASE per site
+        dict(module="RewriteRedir", cfg=dict(quick="RewriteRedir_quick.cfg", thorough="RewriteRedir_thorough.cfg"),
+             emit=True, workers=12, timeout=dict(quick=300, thorough=1200)),
     ],
-    go=[dict(pkg="c09", test="TestC09", timeout=dict(quick=600, thorough=3000))],
+    go=[dict(pkg="c09", test="TestC09", timeout=dict(quick=600, thorough=3000)),
+        dict(pkg="cx09rewrite", test="TestCx09Rewrite", timeout=dict(quick=300, thorough=1200))],
     exhaustive=dict(quick=False, thorough=False),
     technique="TLA+ spec DirectiveOrder.tla model-checked by TLC; blocks, their reorderings and the predicted answers replayed against real casket instances",
     level_text="TLC checks on the operational model of parse -> executeDirectives -> NewServer (one action per parsed line, per outer-loop iteration, per compiled middleware) that for every block of a root line plus <=4 of 20 pool lines and every written order that keeps same-directive lines in order the compiled site equals the documented one (CanonicalStack), answers the 30-request battery identically (PermutationInvariant) and respects the pairwise order table (PairOrder). Every block is then loaded for real (casket.Start, loopback) as documented and in 2-3 reorderings; full responses and access-log lines must be identical across written orders and equal to the model's prediction; the registered directive list must equal the spec constant Canon. Bounded model checking plus conformance replay: right for a property that quantifies over configurations and requests.",
